@@ -16,6 +16,7 @@ mod foreign;
 mod gen_dom;
 mod gen_value;
 mod miri;
+mod tsan;
 mod report;
 mod rng;
 mod rot;
@@ -108,6 +109,7 @@ fn main() {
         "c16" => c16::main(&a),
         "c17" => c17::main(&a),
         "miri" => miri::main(&a),
+        "tsan" => tsan::main(&a),
         "sweep" => sweep::main(&a),
         "c06" => c06::main(&a),
         "c07" => c07::main(&a),
